@@ -212,7 +212,7 @@ def prop_view(obs):
 
 
 class CoroPart:
-    def __init__(self, name="coro", n_quick=700, n_thorough=12000):
+    def __init__(self, name="coro", n_quick=1500, n_thorough=25000):
         self.name, self.n_quick, self.n_thorough = name, n_quick, n_thorough
 
     def run(self, tier, seed, verdict, cov, driver):
